@@ -742,7 +742,7 @@ func c11g(c *Ctx, r *Report) {
 		W := map[string]types.Object{}
 		for o := range assigned {
 			v, ok := o.(*types.Var)
-			if !ok || v.IsField() || (o.Pos() >= loop.Pos() && o.Pos() < loop.End()) {
+			if !ok || v.IsField() || defIdentIn(info, loop, o) != nil {
 				continue
 			}
 			if b, ok := v.Type().Underlying().(*types.Basic); ok && b.Kind() != types.Invalid {
